@@ -123,6 +123,7 @@ class Check:
                 "outside": bool(p.get("obs", {}).get("outside")),
                 "nsubs": p.get("nsubs", 0),
                 "lines": self.index[cid]["lines"],
+                "entry": p.get("entry", 0),
             }
             self.ctx.info[cid] = inf
             self.ctx.all_contracts.append(cid)
@@ -210,7 +211,11 @@ class Check:
         assert self.refs is not None
         for spec in specs:
             self.refs.need_ops(spec["ops"])
+            hm_ = refs.handle_map(spec["ops"])
             for op in spec["ops"]:
+                if op["op"] == "build" and hm_.get(op["h"]) in self.ctx.info:
+                    c_ = hm_[op["h"]]
+                    self.refs.need(("build", c_, ("B%d" % self.ctx.info[c_].get("entry", 0),)))
                 if op["op"] == "group":
                     for key, path in sorted(op["paths"].items()):
                         self.refs.need(("build", op["cmap"][key.split("/")[0]], tuple(path)))
@@ -282,6 +287,11 @@ class Check:
             if self.prop == "C12" and op["op"] == "build" and not op.get("invalid"):
                 cid = hm.get(op["h"])
                 inside = cid in self.ctx.info and not self.ctx.info[cid]["outside"] and self.ctx.info[cid]["parse"] == "ok"
+                # the clause is about dispatch paths: it is asserted for contracts whose whole-contract
+                # function ([entry block]) can be built at all; a contract the analysis cannot handle
+                # whatever the path is a consistently failing input (C17's business)
+                whole = self.refs.refs.get(("build", cid, ("B%d" % self.ctx.info.get(cid, {}).get("entry", 0),)))
+                inside = inside and whole is not None and whole.get("outcome") == "ok"
                 if (
                     inside
                     and ev.get("outcome") in ("internal_error", "declared_error")
@@ -638,10 +648,11 @@ def replay(path: str, runner: Optional[Runner] = None, quiet: bool = False) -> i
         hm = refs.handle_map(spec["ops"])
         for cid in sorted(set(hm.values())):
             chk.refs.need(("parse", cid))
-        chk.ensure_refs([spec])
+        chk.refs.compute(timeout=900, alt_pct=0)
         for cid in sorted(set(hm.values())):
             p = chk.refs.refs.get(("parse", cid), {})
-            chk.ctx.info[cid] = {"parse": p.get("outcome"), "outside": bool(p.get("obs", {}).get("outside"))}
+            chk.ctx.info[cid] = {"parse": p.get("outcome"), "outside": bool(p.get("obs", {}).get("outside")), "entry": p.get("entry", 0)}
+        chk.ensure_refs([spec])
         hit = False
         for _ in range(2):
             if chk.still_fails(spec, viol["target_uid"], viol["kind"], 600.0):
